@@ -104,6 +104,16 @@ def scenarios(rng: random.Random, n: int, depth: int) -> list[str]:
                      f"UN:{fl}:4:{n()}:{e2}:sid=s;9,oh=peer1.x,or={nodegen.REALM}"]
             for m in stray:
                 out.append(pre + f" | rx 0 {nodegen.dwr(h1, e1)} | rx 0 {nodegen.unk(h2, e2, app=77)} | rx 0 {m} | rx 0 {nodegen.dwr(n(), n())}")
+    # a request that was answered is repeated with the T flag under a new hop-by-hop id (same connection / the peer's
+    # other connection): whatever the node answers must answer *that* request
+    for cfgn in ("basic", "two", "rq"):
+        pre = (nodegen.CONFIGS[cfgn] + " | start | acc | rx 0 " + nodegen.cer("peer1.x", "4", n(), n()) +
+               " | acc | rx 1 " + nodegen.cer("peer1.x", "4", n(), n()))
+        for c2 in (0, 1):
+            e1, e2 = n(), n()
+            out.append(pre + f" | rx 0 {nodegen.dwr(n(), e1)} | rx {c2} DW:144:0:{n()}:{e1}:oh=peer1.x,or={nodegen.REALM} | rx {c2} {nodegen.dwr(n(), n())}")
+            out.append(pre + f" | rx 0 {nodegen.ccr(n(), e2)} | ans 0 0 2001 | rx {c2} {nodegen.ccr(n(), e2, flags=208)} | rx {c2} {nodegen.dwr(n(), n())}")
+            out.append(pre + f" | rx 0 {nodegen.unk(n(), e2, app=77)} | rx {c2} {nodegen.unk(n(), e2, app=77, flags=144)} | rx {c2} {nodegen.dwr(n(), n())}")
     # defective answers on connections in every state (corpus of past findings first)
     base = nodegen.CONFIGS["out"]
     out.insert(0, base + " | start ok,ok | rx 0 " + nodegen.cea(2001, None, 2001, 268435464))
